@@ -15,6 +15,11 @@ CartesianProduct / Quotient / DisjointUnion / Complement code:
   here by convolution, so that products with several non-atom factors and
   arbitrary minimum sizes exist; SerProduct / SerUnion are the repo's
   strategy base classes with a decomposition function reading the tree.
+  A node ("empty",) is a class without objects (Ser.is_empty() is True), used
+  as the empty siblings of the one non-empty child of an equivalence rule.
+
+Derived rule forms (EquivalenceRule, its reverse, EquivalencePathRule) are built
+by build_derived from both universes: see its docstring.
 """
 from collections import Counter
 from functools import lru_cache
@@ -29,6 +34,8 @@ from example import AvoidingWithPrefix, ExpansionStrategy, RemoveFrontOfPrefix
 def ser_count(node, n):
     kind = node[0]
     if n < 0:
+        return 0
+    if kind == "empty":
         return 0
     if kind == "atom":
         return 1 if n == node[1] else 0
@@ -49,9 +56,23 @@ def ser_min(node):
     kind = node[0]
     if kind in ("atom", "geo"):
         return node[1]
+    if kind == "empty":
+        return 0  # no object at all: any answer honours the contract; only asked as a factor of a product
     if kind == "sum":
-        return min(ser_min(x) for x in node[1])
+        live = [ser_min(x) for x in node[1] if not ser_empty(x)]
+        return min(live) if live else 0
     return sum(ser_min(x) for x in node[1])
+
+
+def ser_empty(node):
+    kind = node[0]
+    if kind == "empty":
+        return True
+    if kind == "sum":
+        return all(ser_empty(x) for x in node[1])
+    if kind == "prod":
+        return any(ser_empty(x) for x in node[1])
+    return False
 
 
 class Ser(CombinatorialClass):
@@ -71,7 +92,7 @@ class Ser(CombinatorialClass):
         return ser_min(self.node)
 
     def is_empty(self):
-        return False
+        return ser_empty(self.node)
 
     def to_jsonable(self):
         return {"node": self.node}
@@ -186,55 +207,186 @@ def true_terms(comb_class, n):
 
 
 # ------------------------------------------------------------------ building rules
+def _ser_kids(children):
+    """[m, atom, g] -> node; atom < 0 stands for a class without objects"""
+    return tuple(("empty",) if atom < 0 else ("atom", m) if atom else ("geo", m, g) for m, atom, g in children)
+
+
 def build_rule(spec):
     """
     spec -> (classes described to the model, rule to count).
     Raises ValueError if the strategy does not apply / the derived form does not exist.
 
-    spec["derived"] (optional) selects a derived form of C09:
-      "equiv"      rule.to_equivalence_rule()                  (model: union with the one non-empty child)
-      "equiv_rev"  rule.to_equivalence_rule().to_reverse_rule(0) (model: complement of that one-child union)
-      "path"       EquivalencePathRule of a chain of unary unions (series only; model: union with the last child)
+    For a plain or reversed rule the classes are the ORIGINAL rule's children.  With
+    spec["derived"] in {"equiv", "equiv_rev", "path"} the rule is one of the derived forms (see
+    build_derived) and the one class returned is the class the rule hands to strategy.shifts.
     """
-    from comb_spec_searcher.strategies.rule import EquivalencePathRule
-
+    if spec.get("derived"):
+        info = build_derived(spec)
+        return (info["handed"],), info["rule"]
     u = spec["universe"]
-    derived = spec.get("derived")
     if u == "series":
-        kids = tuple(("atom", m) if atom else ("geo", m, g) for m, atom, g in spec["children"])
-        if derived == "path":
-            node, chain = kids[0], []
-            for _ in range(spec["depth"]):
-                node = ("sum", (node,))
-                chain.append(Ser(node))
-            rules = [SerUnion()(c).to_equivalence_rule() for c in reversed(chain)]
-            rule = EquivalencePathRule(rules)
-            return rule.children, rule
+        kids = _ser_kids(spec["children"])
         if spec["form"] in (0, 2):
             parent, strat = Ser(("sum", kids)), SerUnion()
         else:
             parent, strat = Ser(("prod", kids)), SerProduct()
     elif u == "words":
-        parent = AvoidingWithPrefix(spec["prefix"], spec["patterns"], list(spec["alphabet"]))
-        s = spec["strategy"]
-        if s == "expansion":
-            strat = ExpansionStrategy()
-        elif s == "remove_front":
-            strat = RemoveFrontOfPrefix()
-        else:
-            strat = SplitPrefix(spec["cuts"])
+        parent, strat = _words_parent(spec)
     else:
         raise ValueError(u)
     if strat.decomposition_function(parent) is None:
         raise ValueError("strategy does not apply")
     fwd = strat(parent)
-    if derived in ("equiv", "equiv_rev"):
-        if spec["form"] not in (0, 2) or not fwd.is_equivalence():
-            raise ValueError("not an equivalence rule")
-        eq = fwd.to_equivalence_rule()
-        return eq.children, (eq if derived == "equiv" else eq.to_reverse_rule(0))
     rule = fwd.to_reverse_rule(spec["idx"]) if spec["form"] in (2, 3) else fwd
     return fwd.children, rule
+
+
+def _words_parent(spec):
+    parent = AvoidingWithPrefix(spec["prefix"], spec["patterns"], list(spec["alphabet"]))
+    s = spec["strategy"]
+    if s == "expansion":
+        strat = ExpansionStrategy()
+    elif s == "remove_front":
+        strat = RemoveFrontOfPrefix()
+    else:
+        strat = SplitPrefix(spec["cuts"])
+    return parent, strat
+
+
+def _wrap(node, w):
+    """a unary-up-to-empty-siblings node over `node`: w = [number of empty siblings, position of node, kind]
+    kind 0 a sum (DisjointUnionStrategy), 1 a product (CartesianProductStrategy)"""
+    ne, pos, kind = (list(w) + [0, 0, 0])[:3]
+    if kind and ne:
+        raise ValueError("a product with an empty factor is itself empty: only ONE-child products")
+    pos = max(0, min(pos, ne))
+    empties = (("empty",),) * ne
+    return ("prod" if kind else "sum", empties[:pos] + (node,) + empties[pos:])
+
+
+def _equivalence(strat, parent, expect_child):
+    """the EquivalenceRule of strat(parent); AssertionError if /repo does not see the planned one non-empty child"""
+    fwd = strat(parent)
+    live = [c for c in fwd.children if not c.is_empty()]
+    assert live == [expect_child], "non-empty children %r, planned %r" % (live, expect_child)
+    assert fwd.is_equivalence(), "not an equivalence rule"
+    return fwd.to_equivalence_rule()
+
+
+def derived_plan(spec):
+    """
+    What a derived-form spec describes, decided from the SPEC alone: no rule or strategy code of /repo runs here
+    (only class constructors), so that generating, encoding and shrinking cases never depend on the code under test.
+    ValueError if the spec describes no derived rule.  Returns a dict
+      form      4 EquivalenceRule(rule), 5 EquivalenceRule(ReverseRule(rule, child_idx)), 6 EquivalencePathRule
+      strat     0 if the strategy object the rule inherits is a DisjointUnionStrategy, 1 a CartesianProductStrategy
+      handed    the ONE class the rule hands to strategy.shifts: 4 the non-empty child, 5 the original parent,
+                6 the last class of the path
+      readable  False if a step is an equivalence of a product: its constructor raises NotImplementedError,
+                get_terms cannot run and only shifts() is observable
+      nsteps, reverse_steps, siblings   (input statistics)
+      stack, kinds, start, moves        classes X_0.., kind of the wrapper X_{j+1} over X_j, the walk
+
+    spec["derived"]:
+      "equiv", "equiv_rev"  series: children [m, atom, g] with atom = -1 for an empty class, exactly one
+                            non-empty; form 0/2 a union, 1/3 a ONE-child product.  words: ExpansionStrategy on a
+                            non-empty class all of whose one-letter extensions contain a pattern.
+      "path"   series: "children" = [leaf], "tower" = wrappers w_0.. (see _wrap) giving the classes
+               X_0 = leaf, X_{j+1} = wrap(X_j, w_j); the path starts at X_start and "moves" walks: 0 = down
+               (the equivalence rule X_j -> X_{j-1}), 1 = up (its reverse, X_j -> X_{j+1}).
+               (old format: "depth" = that many down moves from the top of a tower of plain unary sums)
+               words: X_0 = the word `prefix`, X_1 = the class; same "start"/"moves".
+    """
+    u, derived = spec["universe"], spec["derived"]
+    if derived not in ("equiv", "equiv_rev", "path"):
+        raise ValueError(derived)
+    if u == "series":
+        if derived == "path":
+            leaf = _ser_kids(spec["children"])[0]
+            if "tower" in spec:
+                tower, start, moves = [list(w) for w in spec["tower"]], spec["start"], list(spec["moves"])
+            else:
+                tower, start, moves = [[0, 0, 0]] * spec["depth"], spec["depth"], [0] * spec["depth"]
+        else:
+            kids = _ser_kids(spec["children"])
+            live = [i for i, x in enumerate(kids) if not ser_empty(x)]
+            if len(live) != 1:
+                raise ValueError("not exactly one non-empty child")
+            leaf = kids[live[0]]
+            tower = [[len(kids) - 1, live[0], spec["form"] % 2]]
+            start, moves = (1, [0]) if derived == "equiv" else (0, [1])
+        if ser_empty(leaf):
+            raise ValueError("empty leaf")
+        nodes = [leaf]
+        for w in tower:
+            nodes.append(_wrap(nodes[-1], w))
+        stack = [Ser(x) for x in nodes]
+        kinds = [(list(w) + [0, 0, 0])[2] for w in tower]
+        siblings = tower[0][0] if derived != "path" else 0
+    elif u == "words":
+        if spec["strategy"] != "expansion":
+            raise ValueError("not a union")
+        p, pats, alph = spec["prefix"], list(spec["patterns"]), list(spec["alphabet"])
+        if any(q in p for q in pats) or not all(any(q in p + x for q in pats) for x in alph):
+            raise ValueError("not exactly one non-empty child")
+        stack = [AvoidingWithPrefix(p, pats, alph, True), AvoidingWithPrefix(p, pats, alph)]
+        kinds, siblings = [0], len(alph)
+        if derived == "path":
+            start, moves = spec["start"], list(spec["moves"])
+        else:
+            start, moves = (1, [0]) if derived == "equiv" else (0, [1])
+    else:
+        raise ValueError(u)
+    if not moves or not 0 <= start < len(stack):
+        raise ValueError("empty path")
+    j, used = start, []
+    for mv in moves:
+        j += 1 if mv else -1
+        if not 0 <= j < len(stack):
+            raise ValueError("walk leaves the tower")
+        used.append(kinds[j - 1] if mv else kinds[j])
+    if derived == "path":
+        form, handed = 6, stack[j]
+    elif derived == "equiv":
+        form, handed = 4, stack[0]
+    else:
+        form, handed = 5, stack[1]
+    return {"form": form, "strat": used[0], "handed": handed, "readable": not any(used), "nsteps": len(moves),
+            "reverse_steps": sum(moves), "siblings": siblings, "stack": stack, "kinds": kinds, "start": start,
+            "moves": moves}
+
+
+def build_derived(spec):
+    """
+    derived_plan(spec) plus "rule": the derived rule itself, built through the repo's own to_equivalence_rule /
+    to_reverse_rule(0) / EquivalencePathRule.  AssertionError if /repo does not build what the plan describes.
+    """
+    from comb_spec_searcher.strategies.rule import EquivalencePathRule
+
+    plan = derived_plan(spec)
+    stack, kinds = plan["stack"], plan["kinds"]
+
+    def step(j):
+        if spec["universe"] == "words":
+            strat = ExpansionStrategy()
+        else:
+            strat = SerProduct() if kinds[j] else SerUnion()
+        return _equivalence(strat, stack[j + 1], stack[j])
+
+    j, rules = plan["start"], []
+    for mv in plan["moves"]:
+        if mv == 0:
+            j -= 1
+            rules.append(step(j))
+        else:
+            rules.append(step(j).to_reverse_rule(0))
+            j += 1
+    if spec["derived"] == "path":
+        rule = EquivalencePathRule(rules)
+    else:
+        rule = rules[0]
+    return dict(plan, rule=rule)
 
 
 def descriptors(classes):
